@@ -18,20 +18,31 @@ TRUSTED_BASE = [
     "option variants (kind opts): the raw estimate comes from the functional API called with the same option "
     "(aryule(norm=), arburg(criteria=), pmtm(e=, v=), music(threshold=), ev(criteria=)); Periodogram(detrend=) is oracle-only",
     "numpy.hamming / hanning / blackman / ones are the independent window references of the speriodogram scaling oracle",
+    "kind a2pbin: numpy.longdouble (eps %.2e on this platform) cos / sin / sqrt are the reference of the per-bin enclosure of arma2psd; the "
+    "enclosure allows a double precision evaluation of B(f), A(f) an absolute error of 256 eps (1 + sum|coefficients|) (worst needed by the "
+    "unchanged code: 5.7 eps) and the quotient a relative 256 eps" % float(np.finfo(np.longdouble).eps),
 ]
 PARTIAL = []
 ASSUMPTIONS = ["pi is an abstract positive constant in the theorems; 2*pi = 6.283185307179586 in the correspondence",
                "pminvar is not named in the statement's two families: its estimate is sampling / (e^H R^-1 e) (property C16), so with scaling "
                "off a sampling change by c MULTIPLIES it by c; the oracle asserts exactly that",
                "scale_by_freq 'on' is the Python bool True only (quantifier: {False, True}); complex data has no one-sided representation "
-               "(get_converted_psd / sides = 'onesided' are documented to be rejected there and are not generated)"]
+               "(get_converted_psd / sides = 'onesided' are documented to be rejected there and are not generated)",
+               "arma2psd bin by bin (a2pbin): AR parts with |A(f)| < 2e-10 at a grid frequency are redrawn (a pole of the spectrum ON the grid has "
+               "no value to compare); zeros of B exactly on the grid are kept (the value there is 0 or ~1e-32 and must come out as >= 0 "
+               "and at most the rounding enclosure)"]
 RULE = ("all 14 estimator class variants x real/complex data x NFFT in {None, nextpow2, even, odd, below N} x N in {8, 9, 30, 31, 32, 40, 64} x "
         "sampling in (1e-2, 1e5) (float and int) x scale_by_freq in {False, True}, given as constructor keyword, by attribute assignment "
         "after a computed psd, with repeated explicit calls, and read through sides / get_converted_psd; option variants (pyule norm, "
         "pburg criteria, MultiTapering(e, v), pmusic/pev NSIG=None with threshold / criteria, Periodogram detrend); speriodogram 1-D / 2-D, "
         "detrend on/off, four windows, NFFT below / at / above N and default; arma2psd with random real/complex/mixed-dtype A, B "
         "(ndarray float/complex/int, list, tuple, empty, None), int/float rho, T incl. 1e-6 / 1e5, keyword / positional / default NFFT, "
-        "NFFT > max(len) incl. the boundary max(len)+1, len up to 50")
+        "NFFT > max(len) incl. the boundary max(len)+1, len up to 50; arma2psd BIN BY BIN (kind a2pbin, every bin against an enclosure of its own "
+        "value (rho/T)|B|^2/|A|^2 computed in longdouble, no max-norm): MA / ARMA / AR models whose zeros and poles lie 1e-2 .. 1e-9 from the "
+        "unit circle (and zeros exactly on it) at angles on, or 1e-6 .. 0.5 bin away from, a grid frequency (DC, Nyquist, quarter, random bin): "
+        "notches [-2r cos th, r^2], single real / complex zeros, notch filters with pulled-in or random AR part, near-circle resonances, "
+        "pole + zero, near-circle zero times a random factor, random models; real and complex, ndarray and list, NFFT 4..64 and "
+        "100..4097; per bin also: finite, never negative, T -> c*T divides and rho -> c*rho multiplies every bin (nulls included) by one factor")
 
 
 def c(v):
@@ -124,9 +135,120 @@ def oracle_a2pform(p):
     return []
 
 
+# arma2psd, bin by bin.  The two kinds above compare in max-norm relative to the PEAK of the spectrum: a value that is wrong only in
+# a bin lying 100 dB below the peak (a spectral null: zero of B(z) next to the unit circle at a grid frequency) is invisible there.
+# Kind a2pbin compares EVERY bin with an enclosure of its own true value.
+#
+# Reference: B(f_k) = 1 + sum_i b_i e^{-2 pi j k (i+1)/NFFT} (and A likewise) summed term by term in numpy.longdouble, the angle
+# reduced exactly in integers (k(i+1) mod NFFT, then to a quarter turn so that 0 / +-1 twiddles are exact): no FFT, no squaring of
+# anything before the sum, absolute error ~ eps_LD * (1 + sum|b|) (1e-19 here), i.e. it resolves a null of depth |B| = 1e-9 to 1e-10.
+# Enclosure: a double precision evaluation of the polynomial on the grid returns B_k + e, |e| <= dB = K*eps*(1 + sum|b|)
+# (backward-stable DFT / Horner / direct sum all satisfy this with a small K), hence |B|^2 in [max(|B_k|-dB, 0)^2, (|B_k|+dB)^2];
+# same for A; the quotient times rho/T carries a further relative K*eps.  This is the "eps/sqrt(D)" conditioning of a bin D below
+# the peak written as an interval (it stays meaningful when the null is an exact zero: 0 <= value <= (rho/T) dB^2/|A|^2).
+# K: the smallest K (stepped by sqrt 2) that encloses every bin of the UNCHANGED arma2psd was measured over ~7000 models (the families
+# of gen_a2pbin, 6 thorough + 5 quick seeds, + models with up to 50 coefficients, NFFT up to 8192 incl. primes 4099 / 8191):
+# worst 5.7 (NFFT = 4097, Bluestein); A2P_K = 256 leaves a margin of 45x.  (The seeded numerator-through-autocorrelation change
+# needs K >= 1e7 in a null 120 dB down.)
+A2P_K = 256.0
+_LD = np.longdouble
+_EPS = float(np.finfo(float).eps)
+_EPS_LD = float(np.finfo(np.longdouble).eps)     # 1.08e-19 (x87 extended); enters the enclosure so that a platform whose
+                                                 # longdouble is a plain double widens the bound instead of raising false alarms
+
+
+def _grid_poly_ld(cf, nfft):
+    """Re, Im of 1 + sum_i cf[i] exp(-2j pi k (i+1) / nfft), k = 0..nfft-1, in longdouble (cf None: the constant 1)"""
+    re = np.ones(nfft, dtype=_LD)
+    im = np.zeros(nfft, dtype=_LD)
+    if cf is None:
+        return re, im
+    half_pi = np.arccos(_LD(-1)) / _LD(2)
+    k = np.arange(nfft, dtype=np.int64)
+    for i in range(len(cf)):
+        j4 = 4 * ((k * (i + 1)) % nfft)                  # exact: angle = (j4 / nfft) quarter turns
+        q = j4 // nfft
+        phi = half_pi * (j4 - q * nfft).astype(_LD) / _LD(nfft)      # in [0, pi/2)
+        cc, ss = np.cos(phi), np.sin(phi)
+        co = np.where(q == 0, cc, np.where(q == 1, -ss, np.where(q == 2, -cc, ss)))
+        si = np.where(q == 0, ss, np.where(q == 1, cc, np.where(q == 2, -ss, -cc)))
+        zc = complex(cf[i])
+        a, b = _LD(zc.real), _LD(zc.imag)
+        re = re + a * co + b * si                        # (a + jb)(co - j si)
+        im = im + b * co - a * si
+    return re, im
+
+
+def a2p_enclosure(A, B, rho, T, nfft, K=A2P_K):
+    """(ref, lo, hi) per bin, longdouble: the value (rho/T)|B|^2/|A|^2 and the interval any K-stable double evaluation lies in"""
+    br, bi = _grid_poly_ld(B, nfft)
+    ar, ai = _grid_poly_ld(A, nfft)
+    mB, mA = np.sqrt(br * br + bi * bi), np.sqrt(ar * ar + ai * ai)
+    u = K * _EPS + 64 * _EPS_LD
+    dB = _LD(0 if B is None else u * (1.0 + float(np.sum(np.abs(np.asarray(B, dtype=complex))))))
+    dA = _LD(0 if A is None else u * (1.0 + float(np.sum(np.abs(np.asarray(A, dtype=complex))))))
+    sc = _LD(float(rho)) / _LD(float(T))
+    with np.errstate(all="ignore"):
+        ref = sc * mB ** 2 / mA ** 2
+        lo = sc * np.maximum(mB - dB, 0) ** 2 / (mA + dA) ** 2 * (1 - _LD(u))
+        hi = np.where(mA > dA, sc * (mB + dB) ** 2 / np.maximum(mA - dA, _LD(0)) ** 2 * (1 + _LD(u)), _LD(np.inf))
+    return ref, lo, hi
+
+
+def _a2p_call(p, rho=None, T=None):
+    A, B = p["A"], p["B"]
+    if p.get("aslist"):
+        A, B = _as_form(A, "list"), _as_form(B, "list")
+    return np.asarray(C.sp().arma2psd(A=A, B=B, rho=p["rho"] if rho is None else rho, T=p["T"] if T is None else T, NFFT=p["nfft"]))
+
+
+def oracle_a2pbin(p):
+    A, B, rho, T, nfft = p["A"], p["B"], p["rho"], p["T"], p["nfft"]
+    what = "arma2psd(A %s, B %s, rho=%r, T=%r, NFFT=%d) [%s]" % (
+        "None" if A is None else "%s[%d]" % (np.asarray(A).dtype, len(A)),
+        "None" if B is None else "%s[%d]" % (np.asarray(B).dtype, len(B)), rho, T, nfft, p.get("fam", ""))
+    got = _a2p_call(p)
+    if got.shape != (nfft,) or np.iscomplexobj(got):
+        return ["%s: returns shape %s dtype %s, expected %d real values" % (what, got.shape, got.dtype, nfft)]
+    out = []
+    ref, lo, hi = a2p_enclosure(A, B, rho, T, nfft)
+    g = got.astype(_LD)
+    sure = np.isfinite(hi)            # bins whose denominator is certainly non-zero (everywhere, for the generated models)
+    nonfin = sure & ~np.isfinite(got)
+    neg = np.isfinite(got) & (got < 0)
+    if np.any(nonfin):
+        k = int(np.argmax(nonfin))
+        out.append("%s: bin %d is %r where (rho/T)|B|^2/|A|^2 = %.17g" % (what, k, float(got[k]), float(ref[k])))
+    if np.any(neg):
+        k = int(np.argmin(np.where(neg, got, 0)))
+        out.append("%s: bin %d (f = %d/%d) is NEGATIVE: %.17g where (rho/T)|B|^2/|A|^2 = %.17g >= 0" % (
+            what, k, k, nfft, float(got[k]), float(ref[k])))
+    with np.errstate(all="ignore"):
+        outside = sure & np.isfinite(got) & ~neg & ((g < lo) | (g > hi))
+        if np.any(outside):
+            err = np.where(outside, np.abs(g - ref) / np.where(ref > 0, ref, _LD(1)), 0)
+            k = int(np.argmax(err))
+            allowed = max(float(hi[k] - ref[k]), float(ref[k] - lo[k]))
+            peak = float(np.max(np.where(np.isfinite(ref), ref, 0)))
+            out.append("%s != (rho/T)|B|^2/|A|^2 in bin %d (f = %d/%d, %.0f dB below the peak): returned %.17g, formula %.17g, "
+                       "error %.3e (rel. %.3e) where a double precision evaluation of B(f), A(f) is within %.3e (rel. %.3e); %d bin(s) outside" % (
+                           what, k, k, nfft, 10 * np.log10(peak / float(ref[k])) if ref[k] > 0 else float("inf"), float(got[k]), float(ref[k]),
+                           float(abs(g[k] - ref[k])), float(err[k]) if ref[k] > 0 else float("nan"), allowed,
+                           allowed / float(ref[k]) if ref[k] > 0 else float("nan"), int(np.sum(outside))))
+    # sampling clause and noise variance, bin by bin (nulls included): one scalar factor per bin.  The unchanged code forms rho / T
+    # first and multiplies: x*(rho/(cT)) against x*(rho/T)/c differs by <= 3 roundings (worst measured on the unchanged tree, factors 0.5 .. 250, ~1000 models: 6.5e-16); 2.5e-14 is 38x that.
+    cfac = p.get("c", 4.0)
+    ok = np.isfinite(got)
+    for name, g2, fac in (("T -> %g*T divides" % cfac, _a2p_call(p, T=cfac * T), 1.0 / cfac),
+                          ("rho -> %g*rho multiplies" % cfac, _a2p_call(p, rho=cfac * rho), cfac)):
+        if g2.shape != got.shape or not close(g2[ok], got[ok] * fac, 2.5e-14):
+            out.append("%s: %s every bin by the same factor: violated (%s)" % (what, name, worst(g2, got * fac)))
+    return out
+
+
 # ---- class glue + scaling ----------------------------------------------------------------------------
 
-SIDES = ("twosided", "centerdc", "onesided")
+SIDES =("twosided", "centerdc", "onesided")
 
 
 def close(a, b, tol=1e-10):
@@ -593,6 +715,12 @@ KINDS = {
                                                          "None" if p["B"] is None else np.asarray(p["B"]).dtype.kind),
                                    "a2pform:rho-%s/T-%s" % (type(p["rho"]).__name__, type(p["T"]).__name__)] + (
                     ["a2pform:nfft=maxlen+1"] if p["nfft"] == max(0 if p["A"] is None else len(p["A"]), 0 if p["B"] is None else len(p["B"])) + 1 else [])},
+    "a2pbin": {"oracle": oracle_a2pbin,
+               "key": lambda p: "a2pb|%s|%d|%r|%r|%s|%d" % (p.get("fam"), p["nfft"], p["rho"], p["T"], p.get("aslist"), _crc(p["A"], p["B"])),
+               "tags": lambda p: ["a2pbin", "a2pbin:" + p.get("fam", "?"), "a2pbin:margin-%s" % p.get("gap", "?"),
+                                  "a2pbin:angle-%s" % p.get("where", "?"), "a2pbin:nfft-%s" % ("<=64" if p["nfft"] <= 64 else ">=1000" if p["nfft"] >= 1000 else "mid"),
+                                  "a2pbin:%s" % ("complex" if any(v is not None and np.iscomplexobj(v) for v in (p["A"], p["B"])) else "real"),
+                                  "a2pbin:A-%s/B-%s" % ("None" if p["A"] is None else "given", "None" if p["B"] is None else "given")]},
     "glue": {"impl": impl_glue, "model": model_glue, "oracle": oracle_glue, "rtol": 1e-9, "atol": 1e-300, "key": _key,
              "tags": lambda p: ["cls:" + p["cls"], "complex" if np.iscomplexobj(p["x"]) else "real", "nfft:%s" % (
                  p["nfft"] if not isinstance(p["nfft"], int) else ("odd" if p["nfft"] % 2 else "even")), "scale:%s" % p["scale"],
@@ -741,6 +869,8 @@ def gen(rng, nrng, tier):
         yield ("funcscale", q)
     # ---- arma2psd: other input forms
     yield from gen_a2pform(nrng, thorough)
+    # ---- arma2psd bin by bin: zeros / poles next to the unit circle at (or a fraction of a bin away from) a grid frequency
+    yield from gen_a2pbin(nrng, thorough)
 
 
 SMALL_NFFT = [("pburg", {"order": 4}, (16, 5)), ("pyule", {"order": 4}, (5, 6)), ("pcovar", {"order": 4}, (9, 5)), ("pmodcovar", {"order": 3}, (4, 7)),
@@ -825,3 +955,90 @@ def gen_a2pform(nrng, thorough):
             q["form"] = "%s/%s/%s" % (fa, fb, ("default", "none")[(i // 20) % 2])
             q["nfft"] = 4096
         yield ("a2pform", q)
+
+
+# ---- arma2psd bin by bin ---------------------------------------------------------------------------------------------------------------
+
+A2PBIN_FAMS = ("ma-notch", "ma-real-zero", "ma-cplx-zero", "arma-notch", "arma-cplx", "ar-pole", "arma-pole-zero", "ma-zero-x-random",
+               "ma-on-circle", "arma-on-circle", "random")
+A2PBIN_NFFT = (8, 16, 17, 31, 32, 45, 64, 100, 127, 256, 1000, 1024, 4096, 4097)
+A2PBIN_OFF = (0.0, 0.0, 0.0, 1e-6, -1e-4, 1e-3, 1e-2, 0.1, -0.37, 0.5)       # distance of the angle from the grid frequency, in bins
+
+
+def _notch(r, th):
+    """1 - 2 r cos(th) z^-1 + r^2 z^-2: zeros r e^{+-j th}"""
+    return np.array([-2.0 * r * np.cos(th), r * r])
+
+
+def _min_mod(cf, nfft):
+    z = np.exp(-2j * np.pi * np.arange(nfft) / nfft)
+    return float(np.min(np.abs(1 + sum(complex(cf[i]) * z ** (i + 1) for i in range(len(cf))))))
+
+
+def gen_a2pbin(nrng, thorough):
+    """All inside the quantifier: any coefficient vectors (real / complex), rho > 0, T > 0, NFFT > max(len(A), len(B)).
+    AR parts whose |A(f)| comes below 2e-10 on the grid are redrawn (a pole ON a grid frequency leaves no value to compare)."""
+    n = 8 * len(A2PBIN_FAMS) if not thorough else 60 * len(A2PBIN_FAMS)
+    fixed_gaps = (1e-2, 1e-4, 1e-6, 1e-9, 1e-5, 1e-7, 1e-3, 1e-8)
+    for i in range(n):
+        fam = A2PBIN_FAMS[i % len(A2PBIN_FAMS)]
+        rep = i // len(A2PBIN_FAMS)
+        for attempt in range(20):
+            nfft = int(A2PBIN_NFFT[int(nrng.integers(0, len(A2PBIN_NFFT)))]) if rep % 4 else int(nrng.integers(4, 65))
+            gap = float(fixed_gaps[rep % 8]) if rep < 8 else float(10.0 ** -nrng.uniform(2, 9))
+            r = 1.0 - gap
+            k0 = [0, nfft // 2, nfft // 4, 1][rep % 4] if rep % 3 == 0 else int(nrng.integers(0, nfft))
+            off = float(A2PBIN_OFF[int(nrng.integers(0, len(A2PBIN_OFF)))])
+            th = 2 * np.pi * (k0 + off) / nfft
+            z0 = r * np.exp(1j * th)
+            na = int(nrng.integers(1, 5))
+            ar = nrng.standard_normal(na) * 0.3
+            arc = ar + 1j * nrng.standard_normal(na) * 0.3
+            A = B = None
+            if fam == "ma-notch":
+                B = _notch(r, th)
+            elif fam == "ma-real-zero":                       # leaky differencer (zero at DC) / leaky summer (zero at Nyquist)
+                B = np.array([-r if rep % 2 == 0 else r])
+                off = 0.0 if (rep % 2 == 0 or nfft % 2 == 0) else 0.5
+            elif fam == "ma-cplx-zero":
+                B = np.array([-z0])
+            elif fam == "arma-notch":                         # notch filter: zeros at the circle, poles pulled in (or a random AR part)
+                B = _notch(r, th)
+                A = _notch(float(nrng.uniform(0.5, 0.95)), th) if rep % 2 else ar
+            elif fam == "arma-cplx":
+                B, A = np.array([-z0]), arc
+            elif fam == "ar-pole":                            # resonance next to the unit circle: the PEAK bin is the ill-conditioned one
+                A = _notch(r, th) if rep % 2 else np.array([-z0])
+            elif fam == "arma-pole-zero":
+                k1 = (k0 + 1 + int(nrng.integers(0, max(1, nfft - 1)))) % nfft
+                A = _notch(1.0 - 3 * gap, 2 * np.pi * (k1 + off) / nfft)
+                B = _notch(r, th)
+            elif fam == "ma-zero-x-random":                   # the near-circle zero is one factor of a longer polynomial
+                f2 = np.r_[1.0, nrng.standard_normal(int(nrng.integers(1, 6))) * 0.5]
+                B = (np.convolve(np.r_[1.0, -z0], f2 + 0j) if rep % 2 else np.convolve(np.r_[1.0, _notch(r, th)], f2))[1:]
+            elif fam in ("ma-on-circle", "arma-on-circle"):   # zero ON the circle at a grid frequency, irrational coefficients: the null is
+                gap, off = 0.0, 0.0                           # an exact 0 in exact arithmetic, ~1e-32 for the rounded coefficients
+                th = 2 * np.pi * k0 / nfft
+                B = _notch(1.0, th) if rep % 2 else np.array([-np.exp(1j * th)])
+                A = None if fam == "ma-on-circle" else (arc if rep % 2 == 0 else ar)
+            else:
+                p_, q_ = int(nrng.integers(0, 12)), int(nrng.integers(0, 12))
+                cplx = bool(rep % 2)
+                A = None if p_ == 0 else nrng.standard_normal(p_) * 0.3 + (1j * nrng.standard_normal(p_) * 0.3 if cplx else 0)
+                B = None if q_ == 0 and p_ else nrng.standard_normal(max(q_, 1)) * 0.5 + (1j * nrng.standard_normal(max(q_, 1)) * 0.5 if rep % 4 == 3 else 0)
+                gap, off = None, None
+            ln = max(0 if A is None else len(A), 0 if B is None else len(B))
+            if nfft <= ln:
+                continue
+            if A is not None and _min_mod(A, nfft) < 2e-10:
+                continue
+            break
+        else:
+            continue
+        q = {"A": A, "B": B, "rho": float(10 ** nrng.uniform(-6, 3)) if rep % 3 else 1.0,
+             "T": float(10 ** nrng.uniform(-2, 5)) if rep % 3 else 1.0, "nfft": nfft, "fam": fam,
+             "gap": "none" if gap is None else "0" if gap == 0 else "1e-%d" % int(np.ceil(-np.log10(gap) - 1e-9)),
+             "where": "none" if off is None else "on-grid" if off == 0 else "off-grid", "c": [4.0, 0.5, 250.0, 3.0][rep % 4]}
+        if rep % 5 == 4:
+            q["aslist"] = True
+        yield ("a2pbin", q)
